@@ -3,7 +3,7 @@
    start with 1 (Some) or 0 (None / error).  The command numbers are read by tools/models.py
    from the CMD comments below. *)
 From Coq Require Import ZArith List Bool.
-From VV Require Import lib.PyInt lib.PyFloat gen.GenTables model.Driver hw.Npu hw.Defuse hw.Inference model.Arena model.Preserve.
+From VV Require Import lib.PyInt lib.PyFloat gen.GenTables model.Driver hw.Npu hw.Defuse hw.Inference model.Arena model.Preserve model.Rewrites.
 Import ListNotations.
 Open Scope Z_scope.
 
@@ -319,6 +319,13 @@ Definition run_check_preserved (a : list Z) : list Z :=
   | [] => [-1]
   end.
 
+(* CMD dilated_decision = 10 : ih iw oh ow kh kw bh bw pt pl ct cl -> [0 leave | 1 SAME | 2 VALID] *)
+Definition run_dilated_decision (a : list Z) : list Z :=
+  match a with
+  | [ih; iw; oh; ow; kh; kw; bh; bw; pt; pl; ct; cl] => [dilated_decision ih iw oh ow kh kw bh bw pt pl ct cl]
+  | _ => [-1]
+  end.
+
 Definition run (cmd : Z) (a : list Z) : list Z :=
   if cmd =? 1 then run_driver_payload a
   else if cmd =? 2 then run_driver_parse a
@@ -329,4 +336,5 @@ Definition run (cmd : Z) (a : list Z) : list Z :=
   else if cmd =? 7 then run_check_arena a
   else if cmd =? 8 then run_check_preserved a
   else if cmd =? 9 then run_check_inference a
+  else if cmd =? 10 then run_dilated_decision a
   else [-1].
